@@ -129,7 +129,7 @@ func (f Frame) Split(maxByteSize int) (head Frame, tail Frame) {
 	for i := 0; i < len(f); i++ {
 		msg := f[i]
 		size := len(msg.Payload) + len(msg.ID) + len(msg.Channel) + 20
-		if sum+size >= maxByteSize {
+		if sum+size >= maxByteSize && i > 0 { // Always make progress, even if a single message is too large
 			return f[:i], f[i:]
 		}
 		sum += size
